@@ -19,6 +19,21 @@ CLAIMS = {
         "one chain object from several start levels.",
    note="Bounds: quick = all link sequences <=2 over side x 3 sibling kinds x 8 boundary corrections x 4 start levels, long uniform chains to 256 links, all calendar shapes <=7 x publication times <=127, index shapes <=8 and 31..70; thorough = calendar shapes <=11 x times <=2047. Publication times < 2^31 in the model. Trusted: TLC, hashlib, harness/drv_chain.c.",
    technique="TLC-checked TLA+ function specification; exhaustive TLC-generated case tables replayed into libksi with hashlib-concretised hash terms"),
+ "C13": dict(level="model_checking", design_ref="DESIGN.md 4/C13",
+   text="AsyncService.tla models KSI_AsyncService_addRequest / _run over the TCP async client as actions (Run = dispatch ; process response queue ; "
+        "connection-closed fan-out ; find next) with server messages, peer close/reset, poll/connect outcomes and the clock as environment; TLC checks "
+        "ExactlyOnce, ResponseOnlyIfValidReply, CountsAgree, RefusedOnlyWhenFull, CauseIsReal exhaustively for small caches; the real async service and "
+        "the real TCP client are run on a link-time scripted socket layer under seeded random schedules (cache 1..64) and every recorded execution is "
+        "validated by TLC against the same spec (only latitude: which finished handle a run hands back).",
+   note="Bounds: MC N=1/2 requests (quick, 1.5e6 states), N=2 with 2-3 requests (thorough); traces: 4-8 option groups x 25-120 schedules. Not covered: HTTP (curl multi) async client, pushed configurations. Known finding F-C13-1 (premature reply accepted). Trusted: TLC, tools/ksi.py reference aggregator, harness/drv_net.c socket script.",
+   technique="TLC model checking + TLC trace validation of executions of the real async service on scripted sockets"),
+ "C14": dict(level="model_checking", design_ref="DESIGN.md 4/C14",
+   text="TcpStream.tla has one action per system-call outcome of net_tcp_async.c dispatch() (poll, recv n/would-block/eof/reset, buffer full, send n/would-block/"
+        "error, close) over offsets and lengths only; TLC checks Framing (delivered PDUs = complete PDUs in the consumed prefix, hence chunking-independent), "
+        "InsideBuffer, InOrder, whole-requests-per-connection and ClosedMeansClosed for every split/partial-send/fault position with small constants; the real TCP "
+        "async client runs on scripted sockets with the real 65539-byte constants and every recorded system call is validated by TLC against the same actions.",
+   note="Bounds: MC MAX=3 (quick) / MAX=4 (thorough), <=3 PDUs, 2 requests, 2 connections; traces: 60/600 scenarios with PDUs 2..65539 bytes. Blocking TCP client not covered here. Two defects found and fixed (F-C14-1, F-C14-2).",
+   technique="TLC model checking + TLC trace validation of every wrapped system call of the real TCP async client"),
 }
 for e in ENGINES:
     e["serves_properties"] = sorted(CLAIMS)
